@@ -2223,3 +2223,36 @@ async fn d54_out_of_order_timestamps_in_a_memtable() {
 	assert_eq!(before, after, "D54: answers differ before and after the flush");
 	assert_eq!(after.0, vec![200, 100], "newest first");
 }
+
+// D3b: with a reader older than a bottom-level delete open, compaction keeps the version the reader needs AND the
+// tombstone above it (a later reader must not see the deleted value); once the reader is gone the next compaction
+// removes the key entirely.
+#[tokio::test(flavor = "multi_thread")]
+async fn d3b_delete_at_bottom_keeps_tombstone_while_an_older_reader_is_open() {
+	let d = td();
+	let opts = mk_opts(d.path().to_path_buf(), |o| o.level_count = 2);
+	let tree = Tree::new(Arc::clone(&opts)).unwrap();
+	put(&tree, b"k", b"v1").await;
+	tree.flush().unwrap();
+	let old_reader = tree.begin().unwrap();
+	del(&tree, b"k").await;
+	tree.flush().unwrap();
+	for i in 0..2u8 {
+		put(&tree, &[b'x', i], b"1").await;
+		tree.flush().unwrap();
+	}
+	tree.compact(Arc::new(Strategy::default())).unwrap();
+	assert_eq!(old_reader.get(b"k").unwrap(), Some(b"v1".to_vec()), "the older reader keeps its version");
+	assert_eq!(tree.begin().unwrap().get(b"k").unwrap(), None, "D3b: a reader begun after the delete sees the deleted value again");
+	drop(old_reader);
+	for i in 2..6u8 {
+		put(&tree, &[b'x', i], b"1").await;
+		tree.flush().unwrap();
+	}
+	tree.compact(Arc::new(Strategy::default())).unwrap();
+	assert_eq!(tree.begin().unwrap().get(b"k").unwrap(), None);
+	tree.close().await.unwrap();
+	let t2 = Tree::new(Arc::clone(&opts)).unwrap();
+	assert_eq!(t2.begin().unwrap().get(b"k").unwrap(), None, "after reopen");
+	t2.close().await.unwrap();
+}
